@@ -83,6 +83,10 @@ func VerifC16Pickle() {
 	st := &verifHealthyWriter{}
 	c := verifNewConn(NewWriter(st, 4096, "k"), 2, true)
 	name := verifC16Token("name", 1+verifChoice("namelen", verifC16IntParam("maxname", 3)))
+	if k := verifC16IntParam("longname", 0); k > 0 {
+		// a long series name (k concrete bytes after the free ones): the frame outgrows any fixed initial buffer
+		name = append(name, bytes.Repeat([]byte("n"), k)...)
+	}
 	valTok := verifC16ValueToken()
 	// timestamp token: a concrete prefix (param "tsprefix", usually empty) followed by 1..maxts free bytes
 	// (param "tsdigits": free digits only), so that long tokens around 2^32 stay tractable
